@@ -8,6 +8,7 @@ import re
 from ..engine import rule
 from ..cxx_ir import CALL_KINDS, CTOR_KINDS
 from ..descriptors import arm_descriptors
+from ..cfg import cfg_of, const_eval
 from ..py_frontend import call_name, calls_under, walk, is_name, src
 from .common import (short, inst, calls_in, callee_func, member_path, enclosing_map, ancestors,
                      thrown_type, local_inits, strip_casts)
@@ -271,3 +272,129 @@ def w1(ctx):
                        for x in c.call_args()[0].walk() if x.kind == 'DeclRefExpr'})
         ctx.ok('IsPrefix/reorder-source', 'IsPrefix: the re-ordering copies take their sources '
                'from %s (no position of the working copy is applied to the original)' % srcs, f.loc)
+
+
+@rule('P3', floor=3, title='strict prefix means: some leaf of the prefix meets a non-leaf of the other treespec')
+def p3(ctx):
+    """a < b iff a <= b and b has a non-leaf node where a has a leaf.  Structurally: IsPrefix
+    returns `!strict || !acc`, where acc starts true and is only ever and-ed with
+    `b.kind == Leaf` in the branch taken when a's node is a leaf."""
+    prog = ctx.cxx()
+    f = prog.one('PyTreeSpec::IsPrefix')
+    cfg = cfg_of(f)
+    rets = [r for r in f.body.walk() if r.kind == 'ReturnStmt' and r.kids and
+            'strict' in r.kids[0].text(4)]
+    ctx.require(len(rets) == 1, 'IsPrefix: %d return statements mention `strict`' % len(rets))
+    e = rets[0].kids[0]
+    ok = e.kind == 'BinaryOperator' and e.op == '||'
+    acc = None
+    if ok:
+        l, r = e.kids
+        ok = l.kind == 'UnaryOperator' and l.op == '!' and member_path(l.kids[0]) == 'strict' and \
+            r.kind == 'UnaryOperator' and r.op == '!' and member_path(r.kids[0]) is not None
+        acc = member_path(r.kids[0]) if ok else None
+    ctx.check('IsPrefix/strict-return', ok,
+              'IsPrefix returns !strict || !%s' % acc,
+              'IsPrefix decides strictness by `%s`: strictness must depend only on whether a leaf of '
+              'this treespec met a non-leaf of the other (equivalent-but-unequal treespecs - dict '
+              'kinds, key order, deque maxlen - must not count as strict prefixes of each other)'
+              % e.text(5), rets[0].loc)
+    if not ok:
+        return
+    inits = local_inits(f)
+    init_true = const_eval(inits.get(acc)) is True if acc in inits else False
+    updates = []
+    for n in f.body.walk():
+        if n.kind == 'CompoundAssignOperator' and member_path(n.kids[0]) == acc:
+            updates.append(n)
+        elif n.kind == 'BinaryOperator' and n.op == '=' and member_path(n.kids[0]) == acc:
+            updates.append(n)
+    good = bool(updates) and init_true
+    why = []
+    from ..descriptors import _kind_test
+    for u in updates:
+        rhs = u.kids[1]
+        kt = _kind_test(rhs)
+        if not (u.kind == 'CompoundAssignOperator' and u.op == '&=' and kt == ('Leaf', True)):
+            good = False
+            why.append('update `%s` is not `&= (other.kind == Leaf)`' % u.text(4))
+            continue
+        # reached only when this treespec's node is a leaf
+        from .traversal import kind_facts
+        kf = kind_facts(f, u)
+        if ('Leaf', True) not in kf:
+            good = False
+            why.append('update is not confined to the branch where this node is a leaf')
+    ctx.check('IsPrefix/strict-accumulator', good,
+              'the accumulator starts true and is and-ed with (other.kind == Leaf) exactly where '
+              'this treespec has a leaf',
+              'strictness accumulator: %s' % ('; '.join(why) or 'not initialised to true / never updated'),
+              f.loc)
+    ctx.check('IsPrefix/no-equality-shortcut', not calls_in(f.body, {'EqualTo', 'operator=='} - {'operator=='})
+              or not any(c.callee_name() == 'EqualTo' for c in calls_in(f.body)),
+              'IsPrefix does not consult EqualTo', 'IsPrefix calls EqualTo', f.loc)
+
+
+@rule('P4', floor=2, title='the two-treespec matchers pair dict children by key, never by position')
+def p4(ctx):
+    prog = ctx.cxx()
+    # broadcast: other_cur = other_curs[ cast<ssize_t>(DictGetItem(dict, key)) ], key = expected_keys[i]
+    f = prog.one('PyTreeSpec::BroadcastToCommonSuffixImpl')
+    inits = local_inits(f)
+    idx_uses = []
+    for n in f.body.walk():
+        if n.kind == 'CXXOperatorCallExpr' and n.callee_name() == 'operator[]' and len(n.kids) == 3 \
+                and member_path(n.kids[1]) == 'other_curs':
+            idx_uses.append(n)
+    ctx.require(idx_uses, 'BroadcastToCommonSuffixImpl: no use of the per-child cursor table')
+    for i, n in enumerate(idx_uses):
+        ix = strip_casts(n.kids[2])
+        ok, why = _index_by_key(f, ix, inits)
+        ctx.check('BroadcastToCommonSuffixImpl/dict-children-by-key#%d' % i, ok,
+                  'broadcast: the other operand\'s child for a key is found through the key -> '
+                  'position map built from its own key list',
+                  'broadcast pairs dict children %s: keys of equal sets in a different order '
+                  '(unsortable keys keep insertion order) get the wrong partner' % why, n.loc)
+    g = prog.one('PyTreeSpec::IsPrefix')
+    ginits = local_inits(g)
+    emps = [c for c in calls_in(g.body, {'emplace'}) if
+            (member_path(c.call_base()) or '').endswith('index_to_index')]
+    ctx.require(emps, 'IsPrefix: re-ordering index map not found')
+    for i, c in enumerate(emps):
+        a = c.call_args()
+        ok, why = _index_by_key(g, strip_casts(a[1]), ginits)
+        ctx.check('IsPrefix/dict-children-by-key#%d' % i, ok,
+                  'IsPrefix: the re-ordering maps each of this treespec\'s keys to the position '
+                  'of the same key in the other treespec',
+                  'IsPrefix re-orders dict children %s' % why, c.loc)
+    # the position map itself: dict[other_keys[i]] = i
+    for fn_ in (f, g):
+        sets = [c for c in calls_in(fn_.body, {'DictSetItem'})]
+        okm = any(len(c.call_args()) == 3 and 'other_keys' in c.call_args()[1].text(5) and
+                  'int_' in c.call_args()[2].text(4) for c in sets)
+        ctx.check('%s/position-map' % short(fn_).split('::')[-1], okm,
+                  '%s builds the key -> position map from the other node\'s key list' % short(fn_),
+                  '%s: key -> position map not recognised' % short(fn_), fn_.loc)
+
+
+def _index_by_key(f, ix, inits, depth=0):
+    """ix is cast<ssize_t>(DictGetItem(dict, key)) with key read from the expected key list"""
+    if ix is None or depth > 3:
+        return False, 'by an unrecognised index'
+    if ix.kind == 'ConditionalOperator':
+        return False, 'by position on one branch of `%s`' % ix.text(4)
+    if ix.kind in CALL_KINDS and ix.callee_name() in ('cast', 'thread_safe_cast'):
+        inner = strip_casts(ix.call_args()[0])
+        if inner is not None and inner.kind in CALL_KINDS and inner.callee_name() in ('DictGetItem', 'DictGetItemAs'):
+            key = strip_casts(inner.call_args()[1])
+            kp = member_path(key)
+            src = inits.get(kp) if kp else key
+            txt = (src.text(6) if src is not None else '')
+            if 'expected_keys' in txt and ('ListGetItem' in txt or 'operator*' in txt):
+                return True, ''
+            return False, 'through a key that is not read from this node\'s key list (%s)' % txt[:60]
+        return False, 'by `%s`' % ix.text(4)
+    p = member_path(ix)
+    if p and p in inits:
+        return _index_by_key(f, strip_casts(inits[p]), inits, depth + 1)
+    return False, 'by `%s` (a position, not a key lookup)' % ix.text(4)
